@@ -115,14 +115,16 @@ enum Expect {
 }
 
 /// Reference result of `balance -X target`.
-fn reference(seq: &[&T], mult: i64, target: usize, strat: Strat, range: Range) -> Expect {
-    let facts: Vec<GFact> = seq.iter().flat_map(|t| t.ps.iter().filter_map(move |po| po.cost.map(|(r, rc)| GFact { date: t.day, x: po.com, y: rc, rate: Q::parse(r), db: false }))).collect();
+fn reference(seq: &[&T], mult: i64, target: usize, strat: Strat, range: Range, dbfacts: &[GFact]) -> Expect {
+    let mut facts: Vec<GFact> = seq.iter().flat_map(|t| t.ps.iter().filter_map(move |po| po.cost.map(|(r, rc)| GFact { date: t.day, x: po.com, y: rc, rate: Q::parse(r), db: false }))).collect();
+    facts.extend_from_slice(dbfacts);
     let mut tie = false;
     let mut convert = |com: usize, v: Q, at: u32| -> Option<Q> {
         if com == target {
             return Some(v);
         }
-        let acc = refprice_q(3, &facts, com, target, at)?;
+        // commodities 3 (U) and 4 (V) occur only in price-database lines
+        let acc = refprice_q(5, &facts, com, target, at)?;
         if acc.len() > 1 {
             tie = true;
         }
@@ -207,13 +209,31 @@ fn compare(exp: &Balances, got: &Balances, target: usize, dp: Option<u32>) -> Re
     Ok(())
 }
 
+/// Price databases (text, facts): a direct price for a pair the ledger may price too, a three-hop chain through
+/// two commodities that occur only in the database (middle pair first / in chain order / last), two dates newest first.
+fn price_dbs() -> Vec<(&'static str, Vec<GFact>)> {
+    let f = |date: u32, x: usize, y: usize, rate: &str| GFact { date, x, y, rate: Q::parse(rate), db: true };
+    let chain = vec![f(D1, 0, 3, "5"), f(D1, 3, 4, "2"), f(D1, 4, 2, "3")];
+    vec![
+        ("P 2024/01/10 A 5 T\n", vec![f(D1, 0, 2, "5")]),
+        ("P 2024/01/10 U 2 V\nP 2024/01/10 A 5 U\nP 2024/01/10 V 3 T\n", chain.clone()),
+        ("P 2024/01/10 A 5 U\nP 2024/01/10 U 2 V\nP 2024/01/10 V 3 T\n", chain.clone()),
+        ("P 2024/01/10 V 3 T\nP 2024/01/10 A 5 U\nP 2024/01/10 U 2 V\n", chain),
+        ("P 2024/01/15 B 4 T\nP 2024/01/10 B 2 T\n", vec![f(D2, 1, 2, "4"), f(D1, 1, 2, "2")]),
+    ]
+}
+
 fn judge(tprec: Option<u32>, seq: &[&T], queries: &mut u64, must: &mut u64) -> Outcome {
+    judge_db(tprec, seq, queries, must, None, &[])
+}
+
+fn judge_db(tprec: Option<u32>, seq: &[&T], queries: &mut u64, must: &mut u64, dbpath: Option<&std::path::Path>, dbfacts: &[GFact]) -> Outcome {
     let text1 = render(tprec, seq, 1);
     let text3 = render(tprec, seq, 3);
     let strategies = [Strat::UpToDate(D1), Strat::UpToDate(D2), Strat::UpToDate(D3 + 1), Strat::Historical];
     let mut classes = std::collections::BTreeSet::new();
     for (mult, text) in [(1i64, &text1), (3i64, &text3)] {
-        let r = oka::with_ledger(&[(oka::ROOT, text.as_str())], oka::ROOT, None, |r| {
+        let r = oka::with_ledger(&[(oka::ROOT, text.as_str())], oka::ROOT, dbpath, |r| {
             let (l, ctx) = match r {
                 Ok(x) => x,
                 Err(e) => return Some(Outcome::violation(format!("accepted-ledger-rejected/{}", e.variant), e.rendered)),
@@ -234,7 +254,7 @@ fn judge(tprec: Option<u32>, seq: &[&T], queries: &mut u64, must: &mut u64) -> O
                             date_range: DateRange { start: range.0.map(day), end: range.1.map(day) },
                         };
                         let got = l.balance(ctx, &q).map(|b| oka::balance_to_map(&b)).map_err(|e| e.to_string());
-                        let exp = reference(seq, mult, target, strat, range);
+                        let exp = reference(seq, mult, target, strat, range, dbfacts);
                         let what = format!("amounts x{}: balance -X {} {:?} range {:?}", mult, NAMES[target], strat, range);
                         let dp = if target == 2 { tprec } else { None };
                         let kind = if matches!(strat, Strat::Historical) { "historical" } else { "up-to-date" };
@@ -299,5 +319,45 @@ fn run(ctx: &mut Ctx) {
             }
         }
     }
+    // with a price database: all ledgers of <= 2 (thorough <= 3) transactions x 5 databases
+    let dir = oka::scratch_dir("c10");
+    let dbpath = dir.join(format!("pricedb-{}.txt", ctx.shard));
+    let dbs = price_dbs();
+    ctx.fact("price_databases", dbs.len() as u64);
+    let maxlen_db = ctx.tier.pick(2u32, 3u32);
+    for (dbtext, dbfacts) in &dbs {
+        for len in 1..=maxlen_db {
+            for k in 0..n.pow(len) {
+                if !ctx.next_is_mine() {
+                    ctx.skip_cases(1);
+                    continue;
+                }
+                let mut idx = vec![];
+                let mut x = k;
+                for _ in 0..len {
+                    idx.push((x % n) as usize);
+                    x /= n;
+                }
+                let seq: Vec<&T> = idx.iter().map(|i| &alpha[*i]).collect();
+                let (mut q, mut m) = (0u64, 0u64);
+                ctx.case(
+                    || format!("{}-- price db --\n{}", render(None, &seq, 1), dbtext),
+                    || {
+                        std::fs::write(&dbpath, dbtext).expect("write price db");
+                        let o = judge_db(None, &seq, &mut q, &mut m, Some(&dbpath), dbfacts);
+                        match o.verdict {
+                            crate::fw::Verdict::Pass => Outcome::pass(format!("pricedb/{}", o.class)),
+                            crate::fw::Verdict::Violation { sig, detail } => Outcome::violation(format!("pricedb/{}", sig), detail),
+                            _ => o,
+                        }
+                    },
+                );
+                ctx.count("transitions", q);
+                ctx.count("validated", m);
+                ctx.count("states", 1);
+            }
+        }
+    }
+    let _ = std::fs::remove_file(&dbpath);
     let _: QMap = QMap::new();
 }
